@@ -1,8 +1,10 @@
 package props
 
 import (
+	"encoding/json"
 	"errors"
 	"fmt"
+	"github.com/scrapli/scrapligo/platform"
 	"os"
 	"regexp"
 	"runtime/debug"
@@ -129,8 +131,12 @@ type Session struct {
 	OnOpen []string `json:"on_open,omitempty"`
 	// OnOpenAcquire: the network on-open hook acquires the default privilege level (as the
 	// platform definitions do)
-	OnOpenAcquire bool     `json:"on_open_acquire,omitempty"`
-	OnClose       []string `json:"on_close,omitempty"`
+	OnOpenAcquire bool `json:"on_open_acquire,omitempty"`
+	// PlatLogin: the network driver is built from a platform definition whose network-on-open
+	// sequence writes this login secret (redacted) to a gate in front of the device, presses
+	// return, acquires the default level and sends a command
+	PlatLogin string   `json:"plat_login,omitempty"`
+	OnClose   []string `json:"on_close,omitempty"`
 	// Recover: after the first timed-out operation the device catches up (stall fault lifted).
 	Recover bool `json:"recover,omitempty"`
 	// StopAfterError: stop the workload after this many failed operations (0 = never).
@@ -439,11 +445,45 @@ func StartSession(env *Env, sc *Session) (*SessionRun, <-chan struct{}) {
 				Escalate: p.Escalate, Deescalate: p.Deescalate, EscalateAuth: p.EscalateAuth, EscalatePrompt: p.EscalatePrompt,
 			}
 		}
-		opts = append(opts, options.WithPrivilegeLevels(pl), options.WithDefaultDesiredPriv(sc.DefaultPriv))
 		if sc.Secondary != "" {
 			opts = append(opts, options.WithAuthSecondary(sc.Secondary))
 		}
-		sr.N, err = network.NewDriver("sim", opts...)
+		if sc.PlatLogin != "" {
+			// YAML is a superset of JSON: the definition is handed over as JSON text
+			levels := map[string]interface{}{}
+			for _, p := range sc.Privs {
+				levels[p.Name] = map[string]interface{}{
+					"name": p.Name, "pattern": p.Pattern, "not-contains": p.NotContains, "previous-priv": p.Previous,
+					"escalate": p.Escalate, "deescalate": p.Deescalate, "escalate-auth": p.EscalateAuth, "escalate-prompt": p.EscalatePrompt,
+				}
+			}
+			def := map[string]interface{}{
+				"platform-type": "sim_gate",
+				"default": map[string]interface{}{
+					"driver-type":                     "network",
+					"privilege-levels":                levels,
+					"default-desired-privilege-level": sc.DefaultPriv,
+					"network-on-open": []map[string]interface{}{
+						{"operation": "channel.write", "input": sc.PlatLogin, "redacted": true},
+						{"operation": "channel.return"},
+						{"operation": "acquire-priv"},
+						{"operation": "driver.send-command", "command": "terminal width 511"},
+					},
+				},
+			}
+			var jb []byte
+			jb, err = json.Marshal(def)
+			if err == nil {
+				var pf *platform.Platform
+				pf, err = platform.NewPlatform(jb, "sim", opts...)
+				if err == nil {
+					sr.N, err = pf.GetNetworkDriver()
+				}
+			}
+		} else {
+			opts = append(opts, options.WithPrivilegeLevels(pl), options.WithDefaultDesiredPriv(sc.DefaultPriv))
+			sr.N, err = network.NewDriver("sim", opts...)
+		}
 		if err == nil {
 			sr.G = sr.N.Driver
 		}
